@@ -99,6 +99,7 @@ class PipeEnd(ByteStream):
         self.total_in = 0
         self.reads = 0
         self.dropped = 0  # bytes the peer sent after the truncation point
+        self.sending = False
 
     def _wake(self) -> None:
         self.event.set()
@@ -123,10 +124,17 @@ class PipeEnd(ByteStream):
         self._wake()
 
     async def send(self, item: bytes) -> None:
-        await anyio.lowlevel.checkpoint()
-        if self.closed:
-            raise ClosedResourceError
-        self.peer._feed(bytes(item))
+        # like a socket stream: one sender at a time, and a send may suspend (back-pressure)
+        if self.sending:
+            raise anyio.BusyResourceError("sending to")
+        self.sending = True
+        try:
+            await anyio.lowlevel.checkpoint()
+            if self.closed:
+                raise ClosedResourceError
+            self.peer._feed(bytes(item))
+        finally:
+            self.sending = False
 
     async def receive(self, max_bytes: int = 65536) -> bytes:
         tls = self.tls
@@ -224,8 +232,21 @@ async def play(case: dict) -> dict:  # noqa: C901
         while len(got) < total:
             n = sizes[i % len(sizes)]
             i += 1
+            pc = case.get("precancel", 0)
             try:
-                chunk = await stream.receive(n)
+                if pc and i % pc == 0:
+                    # a receive() entered in an already cancelled scope either returns data or raises
+                    # the cancellation; in the latter case it must not have consumed anything
+                    chunk = b""
+                    with anyio.CancelScope() as sc:
+                        sc.cancel()
+                        chunk = await stream.receive(n)
+                    if sc.cancelled_caught and not chunk:
+                        out["precancelled"] = out.get("precancelled", 0) + 1
+                        await anyio.lowlevel.checkpoint()
+                        continue
+                else:
+                    chunk = await stream.receive(n)
             except Exception as e:  # noqa: BLE001
                 out[endkey] = exc_name(e)
                 if cut:
@@ -432,7 +453,7 @@ def gen_frags(rng: random.Random, n: int) -> list[int]:
 
 def gen_session(rng: random.Random, big: bool) -> dict:
     if big:
-        sizes = [0, 1, 100, 16383, 16384, 16385, 40000, 70000]
+        sizes = [0, 1, 100, 16383, 16384, 16385, 40000, 70000, 150000]
         c2s = [rng.choice(sizes) for _ in range(rng.randint(1, 4))]
         s2c = [rng.choice(sizes) for _ in range(rng.randint(0, 3))]
         recv = lambda: [rng.choice(BIG_RECV) for _ in range(3)]  # noqa: E731
@@ -448,6 +469,7 @@ def gen_session(rng: random.Random, big: bool) -> dict:
     return {"tls": rng.choice(["1.2", "1.3"]), "scC": scC, "scS": scS, "c2s": c2s, "s2c": s2c,
             "recvC": recv(), "recvS": recv(), "frags_c": gen_frags(rng, nfr), "frags_s": gen_frags(rng, nfr),
             "recs": [rng.choice([0, 1, 4, 30, 16383]) for _ in range(6)],
+            "precancel": rng.choice([0, 0, 2, 3]),
             "cut": None, "close": True}
 
 
